@@ -112,9 +112,16 @@ def opViolated (fs : List String) : Option String := do
   let s ← parseSoft s; let m ← parseBools m
   some (toString (violated (asgOf m) s))
 
+/-- `costs n | cs | terms` → cost of every model over 1..n, in `leaves` order -/
+def opCosts (fs : List String) : Option String := do
+  let [n, p, f] := fs | none
+  let n ← parseNat n; let p ← parseProblem p; let f ← parseTerms f
+  if !(p.wf n) then some "wf-error" else
+  some (" ".intercalate ((modelsOver n p).map (fun m => toString (cost f (asgOf m)))))
+
 def table : List (String × (List String → Option String)) :=
   [("sat", opSat), ("eval", opEval), ("opt", opOpt), ("cost", opCost), ("count", opCount),
    ("models", opModels), ("ent", opEnt), ("cnfsat", opCnfSat), ("rup", opRup), ("up", opUp),
-   ("mus", opMus), ("submulti", opSubMulti), ("maxsat", opMaxSat), ("violated", opViolated)]
+   ("mus", opMus), ("submulti", opSubMulti), ("maxsat", opMaxSat), ("violated", opViolated), ("costs", opCosts)]
 
 end GS.Ops
